@@ -11,6 +11,16 @@ def buf_calls(path):
             if e['k'] == 'call' and 'RingBuf' in e['callee'] and e['name'] in ('push', 'pop', 'can_push', 'is_empty', 'len')]
 
 
+def _handed_out(path, v):
+    """the popped value is passed on, by value, to code outside the crate that the caller supplied (an `Extend`
+    sink, a callback): a delivery like returning it - not a drop"""
+    for e in path.events:
+        if e['k'] == 'call' and e.get('mode') == 'opaque' and e['name'] not in ('drop', 'drop_in_place', 'forget') \
+                and not (e.get('ci') or {}).get('rlocal') and any(contains(a, v) for a in e.get('args', ())):
+            return True
+    return False
+
+
 def run(C, R):
     R.explanation = ('R1 capacity: every RingBuf::push on a MIR path of the channel state functions is preceded by '
                      'can_push() == true on the same buffer state, or by a pop() with no push in between (the '
@@ -72,7 +82,7 @@ def run(C, R):
                                'path [%s]' % (m['path'], pc), where(F, e), {'trace': trace_summary(path)})
                 # R2
                 for n, (i, e) in enumerate(bc):
-                    if e['name'] != 'pop' or not contains(path.ret, e['ret']):
+                    if e['name'] != 'pop' or not (contains(path.ret, e['ret']) or _handed_out(path, e['ret'])):
                         # a popped value that is not delivered (dropped on the spot, in whatever spelling) is the
                         # discard of the last receiver: C08.R1/R2 judge that; R2 is about the receive path
                         continue
